@@ -71,12 +71,15 @@ def cases(tier):
                 for thr in THR:
                     for mr in ((INF, 1, 2, 3, 4) if sites not in deep_only else (INF, 3, 4, 5)):
                         yield {'ep': 'array', 'sites': sites, 'fam': fam, 'c': c, 'thr': thr, 'mr': mr}
+                        if fam == 'gauss' and thr in (0, 1e-6) and mr in (INF, 2):
+                            # the same tensor in tiny units (x 1e-10): every entry, real and imaginary part, is small in absolute terms
+                            yield {'ep': 'array', 'sites': sites, 'fam': fam, 'c': c, 'thr': thr, 'mr': mr, 'unit': 1e-10}
                         if mr in (1, 2) and thr in (0, 1e-6):
                             for mrt in ('np64', 'np32'):       # the documented integer types of max_rank
                                 yield {'ep': 'array', 'sites': sites, 'fam': fam, 'c': c, 'thr': thr, 'mr': mr, 'mrt': mrt}
                 # ortho-family with int caps and per-bond lists
                 caps = ([1, 2, 3, 4] if sites not in deep_only else [3, 4, 5]) + [[1] + list(x) + [1] for x in itertools.product([1, 2, 3, INF], repeat=d - 1)]
-                for ep in ('cores', 'ortho', 'ortho_hist', 'right_on_left', 'left_on_right', 'right_raw', 'left_raw'):
+                for ep in ('cores', 'ortho', 'ortho_hist', 'ortho_wgt', 'right_on_left', 'left_on_right', 'right_raw', 'left_raw'):
                     for mr in caps:
                         if ep == 'cores' and isinstance(mr, list) and fam not in ('gauss', 'ties'):
                             continue      # TT(cores, max_rank=list) hands the list on to ortho(): covered for two families
@@ -278,6 +281,15 @@ def run_case(case, seed):
     r = R(case)
     rng = rng_for({k: case[k] for k in ('sites', 'fam', 'c')}, seed)   # same tensor for all settings of a layout
     x = make_tensor(case, rng)
+    unit = case.get('unit', 1.0)
+    x = x * unit
+    xun = None
+    if case['ep'] == 'ortho_wgt':
+        # a train straight from TT(array) (every core but the last left-orthonormal) whose FIRST mode is then reweighted from outside:
+        # the first core is no longer orthonormal, the later ones still are
+        xun = x
+        wgt = 1.0 + 2.0 * np.arange(x.shape[0])
+        x = x * wgt.reshape([-1] + [1] * (x.ndim - 1))
     sites = case['sites']; d = len(sites)
     ep, thr, mr = case['ep'], case['thr'], case['mr']
     nx = np.linalg.norm(x.ravel())
@@ -299,6 +311,10 @@ def run_case(case, seed):
             if mr != INF:
                 kw['max_rank'] = mr_arg
             T = TT(np.array(x), **kw)
+        elif ep == 'ortho_wgt':
+            T = TT(np.array(xun))
+            T.cores[0] = T.cores[0] * wgt[None, :, None, None]
+            T.ortho(max_rank=mr_arg)
         else:
             full = TT(np.array(x))
             cores = [cc.copy() for cc in full.cores]
@@ -347,7 +363,7 @@ def run_case(case, seed):
         r.outcome = 'truncated' if r.nontrivial else 'exact'
         if bounded:
             err = np.linalg.norm((dn(T) - x).ravel())
-            slack = (1e-10 if case['fam'] != 'deep' else 2e-12) * max(1.0, nx)
+            slack = (1e-10 if case['fam'] != 'deep' else 2e-12) * (max(1.0, nx) if unit == 1.0 else nx)
             if thr == 0:
                 # (ii) quasi-optimality with the requested caps
                 bound = np.sqrt(sum(tail(k, caps[k]) for k in range(1, d)))
